@@ -247,6 +247,14 @@ class Extractor:
         lp = loops_in(body_m, 0, len(body_m))
         for spec in (loops or []):
             k = spec['ordinal']
+            if k is None:
+                # loop named by a substring of its header (robust to loops added/removed elsewhere)
+                hits = [i for i, (kp, b_, _kw) in enumerate(lp) if spec['anchor'] in ' '.join(body[kp:b_].split())]
+                if not hits and spec.get('optional'):
+                    continue
+                if len(hits) != 1:
+                    raise LostAnchor('%s: loop with header containing %r found %d times' % (qual, spec['anchor'], len(hits)))
+                k = hits[0] + 1
             if k < 1 or k > len(lp):
                 raise LostAnchor('%s: loop #%d not found (%d loops)' % (qual, k, len(lp)))
             kw_pos, bo, kw = lp[k - 1]
@@ -274,6 +282,10 @@ class Extractor:
             # search anchor in body at code positions only (anchor must equal masked text too)
             pos = -1
             found = 0
+            if anchor == '@start':
+                # right after the opening brace of the function body
+                edits.append((1, '\n' + (spec['text'] if spec.get('raw') else 'proof {\n' + spec['text'] + '\n}') + '\n'))
+                continue
             if anchor.startswith('='):
                 want = anchor[1:].strip()
                 off = 0
@@ -438,7 +450,16 @@ def parse_template(text):
                 t = lines[i].strip()
                 if t.startswith('//@|'):
                     cur.append(lines[i].split('//@|', 1)[1])
-                elif t.startswith('//@loop '):
+                elif t.startswith('//@loop ') or t.startswith('//@loop? '):
+                    mm = re.match(r'//@loop(\?)?\s+"(.*)"\s*(?:iter\s+(\w+))?\s*$', t)
+                    if mm:
+                        spec = dict(ordinal=None, anchor=mm.group(2), optional=bool(mm.group(1)), lines=[])
+                        if mm.group(3):
+                            spec['iter'] = mm.group(3)
+                        d['loops'].append(spec)
+                        cur = spec['lines']
+                        i += 1
+                        continue
                     p = t.split()
                     spec = dict(ordinal=int(p[1]), lines=[])
                     if len(p) > 3 and p[2] == 'iter':
